@@ -8,7 +8,7 @@
    Each sprintf(buffer+n, fmt, ...) into the bufSize-sized vector is "append the formatted bytes, write a NUL
    behind them; Fault if n + k + 1 > bufSize".  The buffer size is an explicit parameter of format_opt.
    The format strings, decorations and all numeric constants come from Gen/Consts_C19.v (translator).       *)
-Require Import V.Lib.Base V.Gen.Consts_C19.
+Require Import V.Lib.Base V.Gen.Consts_C19 V.C19.Key.
 Local Open Scope Z_scope.
 
 Definition str := list Z.
@@ -339,8 +339,13 @@ Definition take_opt_str (l : list Z) : option str * list Z :=
   | _ :: r => let '(s, r') := take_str r in (Some s, r')
   end.
 
-(* option: name alias neg level flag arg? impl? dflt? desc *)
-Fixpoint dec_opts (n : nat) (l : list Z) : list vopt * list Z :=
+(* option: name alias neg level flag arg? impl? dflt? desc
+   flag bit 0: the value is a flag;  flag bit 1: the option is DECLARED THROUGH ITS KEY STRING - `name` holds the key
+   (name[!][,alias][,@level], any bytes), `level` is the level the value has before the declaration (Value::level), alias / neg are
+   not read - and the option is what  group.addOptions()(key, value, desc)  makes of it (Key.parse_key with the level the group has at
+   that moment); a key the init helper refuses (Error) declares nothing: None.  Without bit 1 the harness writes the key
+   name[!][,alias],@level itself.                                                                                            *)
+Fixpoint dec_opts (gl : Z) (n : nat) (l : list Z) : list (option vopt) * list Z :=
   match n with
   | O => ([], l)
   | S n' =>
@@ -351,23 +356,41 @@ Fixpoint dec_opts (n : nat) (l : list Z) : list vopt * list Z :=
           let '(impl, r3) := take_opt_str r2 in
           let '(dflt, r4) := take_opt_str r3 in
           let '(desc, r5) := take_str r4 in
-          let isflag := negb (flag =? 0) in
+          let isflag := Z.odd flag in
+          let keyed := Z.odd (flag / 2) in
           let arg' := match arg with Some a => a | None => if isflag then ARG_FLAG else ARG_DEFAULT end in
           let implicit := isflag || match impl with Some _ => true | None => false end in
           let impstr := match impl with Some (c :: i) => c :: i | _ => IMPLICIT_DEFAULT end in
-          let '(os, r6) := dec_opts n' r5 in
-          (mkO name alias arg' implicit impstr (negb (neg =? 0)) dflt level desc :: os, r6)
+          let o := if keyed
+                   then match parse_key gl name level with
+                        | Some k => Some (mkO (k_name k) (k_alias k) arg' implicit impstr (k_neg k) dflt (k_level k) desc)
+                        | None => None
+                        end
+                   else Some (mkO name alias arg' implicit impstr (negb (neg =? 0)) dflt level desc) in
+          let '(os, r6) := dec_opts gl n' r5 in
+          (o :: os, r6)
       | _ => ([], [])
       end
   end.
 
-Fixpoint dec_groups (n : nat) (l : list Z) : list group :=
+Definition keep (ds : list (option vopt)) : list vopt := flat_map (fun d => match d with Some o => [o] | None => [] end) ds.
+
+(* group: caption level nOpts options.  level < 8: the group is created with this level and handed to add with it.
+   level >= 8: the group is created with level  level / 8 - 1, the options are declared in it, and then its level is changed
+   (OptionGroup::setDescriptionLevel) to  level mod 8  before it is handed to OptionContext::add.                              *)
+Definition decl_level (L : Z) : Z := if L <? 8 then L else L / 8 - 1.
+Definition add_level (L : Z) : Z := if L <? 8 then L else L mod 8.
+
+(* the groups as handed to add, each with its declarations (None = a key the init helper refused) *)
+Fixpoint dec_groups (n : nat) (l : list Z) : list (group * list (option vopt)) :=
   match n with
   | O => []
   | S n' =>
       let '(cap, r0) := take_str l in
       match r0 with
-      | level :: nopts :: r1 => let '(os, r2) := dec_opts (Z.to_nat nopts) r1 in mkG cap level os :: dec_groups n' r2
+      | level :: nopts :: r1 =>
+          let '(ds, r2) := dec_opts (decl_level level) (Z.to_nat nopts) r1 in
+          (mkG cap (add_level level) (keep ds), ds) :: dec_groups n' r2
       | _ => []
       end
   end.
@@ -383,13 +406,18 @@ Definition obs_parse (p : pres) : list Z :=
 Definition run_case (c : list Z) : list Z :=
   match c with
   | active :: n :: ng :: r =>
-      let pieces := dec_groups (Z.to_nat ng) r in      (* the OptionGroups in the order they are handed to add *)
+      let dgs := dec_groups (Z.to_nat ng) r in
+      let pieces := map fst dgs in                     (* the OptionGroups in the order they are handed to add *)
+      let decls := flat_map snd dgs in                 (* every declaration, in order: the option, or None = key refused *)
       let ctx := build_ctx pieces in
       let os := registered pieces in
       let dl := active_level active in
       let '(d, f) := description dl ctx in
       let defs := defaults dl n ctx in
-      flat_map (fun o => obs_str (v_name o) ++ [v_alias o; v_level o; b2z (v_neg o)]) os
+      flat_map (fun x => match x with
+                         | Some o => obs_str (v_name o) ++ [v_alias o; v_level o; b2z (v_neg o)]
+                         | None => [-1]
+                         end) decls
       ++ obs_str d ++ [b2z f] ++ obs_str defs ++ obs_parse (parse_cmd_os os defs)
   | _ => []
   end.
